@@ -1065,39 +1065,42 @@ func c19Limit(c *Ctx, p *Prog) {
 		c.Undecided(R, "anchor:DB.ListUploads", "", "not found")
 		return
 	}
+	// every text the listing query can be assembled to, as handed to the database
 	n, nZero := 0, 0
+	seenText := map[string]bool{}
 	eachInstr(fn, func(_ *ssa.BasicBlock, in ssa.Instruction) {
-		bo, ok := in.(*ssa.BinOp)
-		if !ok || bo.Op != token.ADD || !isString(bo.Type()) {
+		call, ok := in.(*ssa.Call)
+		if !ok {
 			return
 		}
-		isLimit := false
-		for _, s := range stringPieces(bo.Y) {
-			if strings.Contains(s, "LIMIT %d") {
-				isLimit = true
-			}
-		}
-		if !isLimit {
+		co := calleeObj(&call.Call)
+		if co == nil || co.Pkg() == nil || co.Pkg().Path() != "database/sql" || !strings.HasPrefix(co.Name(), "Query") {
 			return
 		}
-		n++
-		before := stringPieces(bo.X)
-		canBeZero, filtered := false, false
-		for _, s := range before {
-			if strings.Contains(s, "COUNT(*) FROM Records r WHERE r.UploadID = u.UploadID") {
-				canBeZero = true
+		for _, a := range call.Call.Args {
+			if !isString(a.Type()) {
+				continue
 			}
-			if strings.Contains(strings.Join(strings.Fields(s), " "), "rCount > 0") {
-				filtered = true
+			for _, text := range assembledStrings(a, 64) {
+				norm := strings.Join(strings.Fields(text), " ")
+				li := strings.Index(norm, "LIMIT %d")
+				if li < 0 || seenText[norm] {
+					continue
+				}
+				seenText[norm] = true
+				n++
+				key := fmt.Sprintf("ListUploads:limit#%d", n)
+				zi := strings.Index(norm, "COUNT(*) FROM Records r WHERE r.UploadID = u.UploadID")
+				if zi < 0 || zi > li {
+					c.OK(R, key, p.pos(call.Pos()), "the limited rows come from a join that only yields uploads with matching records")
+					continue
+				}
+				nZero++
+				fi := strings.Index(norm, "rCount > 0")
+				c.Check(fi >= 0 && fi < li, R, key, p.pos(call.Pos()), "rCount > 0 is applied before the LIMIT",
+					"the LIMIT is applied to all uploads, including those without records, and the rCount > 0 condition only afterwards: when an empty or aborted upload is among the newest n IDs, an empty query with limit n returns fewer than n uploads, possibly none")
 			}
 		}
-		if !canBeZero {
-			c.OK(R, fmt.Sprintf("ListUploads:limit#%d", n), p.pos(bo.Pos()), "the limited rows come from a join that only yields uploads with matching records")
-			return
-		}
-		nZero++
-		c.Check(filtered, R, fmt.Sprintf("ListUploads:limit#%d", n), p.pos(bo.Pos()), "rCount > 0 is applied before the LIMIT",
-			"the LIMIT is applied to all uploads, including those without records, and the rCount > 0 condition only afterwards: when an empty or aborted upload is among the newest n IDs, an empty query with limit n returns fewer than n uploads, possibly none")
 	})
 	c.Floor(R, "LIMIT clauses in the upload listing", n, 2)
 	c.Floor(R, "LIMIT clauses over counts that can be zero", nZero, 1)
